@@ -965,6 +965,7 @@ func (n *Node) ToRegisterRequest() RegisterRequest {
 		RaftIndex:       n.RaftIndex,
 		EnterpriseMeta:  *n.GetEnterpriseMeta(),
 		PeerName:        n.PeerName,
+		Locality:        n.Locality,
 	}
 }
 
